@@ -203,6 +203,14 @@ def time_constant_scenarios(case="kundur/kundur_full.json"):
     return out
 
 
+def tiny_step_scenarios():
+    """A fixed step smaller than the minimum step the routine estimates for its own heuristics (accepted with a warning), and
+    a bus fault so that a step needs many Newton iterations: the step handed to the integrator never exceeds the fixed step."""
+    evs = [dict(add="Fault", bus=3, tf=0.001, tc=0.002, xf=0.0001, rf=0.0)]
+    return [dict(sid="tinystep[tstep=2e-05|fault 1-2 ms|tf=0.045]", case="smib/SMIB.json", events=evs, segs=[0.045], family="float",
+                 tds=dict(tstep=2e-5, fixt=1, shrinkt=1, no_tqdm=1))]
+
+
 def late_schedules(case="kundur/kundur_full.json"):
     """Events beyond 10 s (where a relative tolerance of 1e-5 is wider than the 0.1 ms bracket around an event time), also
     two events 0.2 ms apart and a split exactly at an event."""
